@@ -389,6 +389,13 @@ func corpus(r *report.R, scratch string) {
 
 	// run the test files, original and formatted, through the real `ego test`
 	n := 8
+	if len(testsToRun) < 2*n {
+		n = (len(testsToRun) + 1) / 2
+	}
+
+	if n < 1 {
+		n = 1
+	}
 
 	poolO, err := egobatch.NewPool(origTree, n)
 	if err != nil {
